@@ -18,6 +18,17 @@ CHECKS = {
         "Objects within 1e-9 rad of a patch boundary are not generated.",
         "checks/c12_metadata.py",
     ),
+    "C13": (
+        "exploration",
+        "metamorphic monitor: original pipeline run vs transformed run (rotation, row order, centre permutation, weight scale, split)",
+        "Small complete pipelines (cross + auto measurement, sample(), covariance, n(z)) are run on the original inputs and on "
+        "inputs transformed by random SO(3) rotations (incl. a centre onto the pole and the field across RA=0, with centres "
+        "given or taken from an index-column catalog), row permutations, permutations of the centre list, weight factors "
+        "1e-12..1e12 and two-way splits; amplitudes, jackknife samples (permuted with the labels), covariances and n(z) "
+        "must agree to 1e-9 of the largest entry, raw counts must be additive cell-wise.",
+        "Margin filter: cases with a pair within 1e-9 of a scale edge or a point within 1e-7 rad of a patch boundary are rejected (counted).",
+        "checks/c13_invariance.py",
+    ),
     "C14": (
         "exploration",
         "reference-model monitor (longdouble/atan2 oracle) over hostile coordinate classes",
@@ -42,6 +53,19 @@ CHECKS = {
         "go either way; with separation weighting only proportionality (one constant per kind and bin, equal across kinds).",
         "oracles/pairs.py",
     ),
+    "C02": (
+        "exploration",
+        "reference-model monitor with unambiguous records (unique ids) + differential over chunk/buffer/worker/delivery settings",
+        "Inputs with a unique id per row from DataFrame, HDF5, big-endian FITS, Parquet (row groups smaller/equal/larger than "
+        "the chunk) and BoxRandoms are turned into catalogs by the real constructors; every stored record is matched to its "
+        "input row (bijection, bit-identical weight/redshift, coordinates within 2 ulp of deg2rad(input), expected patch by "
+        "brute-force nearest centre or index column), the catalog is reopened and compared bitwise, and the same input is "
+        "re-created under other chunk sizes, buffer sizes (write_patches), progress, and 2..8 real worker processes with "
+        "seeded and adversarial (slow-all-but-last-chunk) delays in front of each worker's queue put; per-patch multisets "
+        "must be identical. Evidence: records matched, variant runs, parallel runs, delivery orders observed.",
+        "Delivery orders of the real pool are sampled, not enumerated; objects within 1e-9 rad of a patch boundary may go either way.",
+        "checks/c02_creation.py, vlib/sources.py, engines/procwatch.py",
+    ),
     "C03": (
         "exploration",
         "reference-model monitor: leave-one-out by actual deletion (arrays) and by re-running the measurement without patch k",
@@ -61,6 +85,28 @@ CHECKS = {
         "Either Davis-Peebles form accepted when DR and RD exist without RR; RR without DR may raise; infinite terms (counts "
         "over a zero weight product) are not judged.",
         "oracles/jack.py",
+    ),
+    "C05": (
+        "exploration",
+        "differential over schedules: FakePool double (enumerated/structured/seeded completion orders) + real Pool with seeded delays",
+        "Every parallel entry point (Catalog(dir) with metadata computation, build_trees, auto-/crosscorrelate, "
+        "HistData.from_catalog, and a measurement after another binning was used in the same process) is run under all 24 "
+        "completion orders of 4 per-patch tasks (exhaustive for that stratum), structured and random orders for pair "
+        "counting, worker counts 1..12 and 64 with the in-process FakePool, and with real pools of 2/3/4/8 workers under "
+        "seeded per-task delays; canonical serialisations of the public results are compared bitwise with the sequential run.",
+        "FakePool is a faithful double of imap_unordered's contract; trees are compared through their content because scipy's "
+        "pickle contains uninitialised struct padding.",
+        "engines/fakepool.py",
+    ),
+    "C07": (
+        "exploration",
+        "differential over histories: final measurement after a history vs the same measurement on fresh caches (bitwise)",
+        "Histories of 0..6 operations (measure with a configuration from a pool built to collide, build_trees with/without "
+        "force, reopen, role swap, histogram; worker counts mixed in a third of the sampled histories) precede a final cross- "
+        "and autocorrelation whose count and weight arrays are compared bitwise with the run on freshly created caches; all "
+        "histories of <= 2 measurements over 6 configurations are enumerated in the thorough tier.",
+        "Redshifts sit exactly on every edge of every pool configuration so that a wrongly reused tree changes counts.",
+        "checks/c07_history.py",
     ),
     "C09": (
         "fault_enumeration",
@@ -108,6 +154,17 @@ CHECKS = {
         "plus the 1e-7 accuracy of astropy's numerical inversion.",
         "checks/c15_config.py",
     ),
+    "C16": (
+        "exploration",
+        "invariant + reproducibility monitor on unique attribute rows; chi^2/KS uniformity statistics at p < 1e-9",
+        "Catalog.from_random / BoxRandoms over hostile windows (pole-to-pole, caps touching +-90 deg, thin strips, full sky), "
+        "sizes around chunk multiples, both patch modes, workers 1 and 4: record count, containment in the window, every "
+        "(weight, redshift) pair is a row of the supplied table, second creation from the same generator after arbitrary "
+        "use == first == fresh generator with the same seed == parallel run, other seed differs; equal-area chi^2, KS on "
+        "alpha and sin(delta), rank correlation.",
+        "Statistical verdicts have a false-alarm probability of ~1e-9 per test and are deterministic per seed; HealPixRandoms unreachable.",
+        "checks/c16_randoms.py",
+    ),
     "C17": (
         "exploration",
         "algebraic-law monitor over generated containers + icontract structural invariants on the real classes",
@@ -118,6 +175,17 @@ CHECKS = {
         "every public call; evidence lists law instances and invariant evaluations.",
         "CorrFunc + CorrFunc with different optional members and empty slices are not judged (statement does not define them).",
         "checks/c17_algebra.py, engines/contracts.py",
+    ),
+    "C18": (
+        "exploration",
+        "history monitor: recording proxies log every request of the readers; offline checker of the request log",
+        "A DataFrame-like proxy, proxies around the h5py / FITS / Parquet handles of the real readers and a logging random "
+        "generator record every slice, row group or draw requested during Catalog.from_*; per column and pass the log must be "
+        "the consecutive partition [0,c),[c,2c),... with every row once, exactly one pass (+1 when centres are generated), no "
+        "whole-input access when n > c and no chunk handed on longer than c; stratified over source x patch mode x lengths "
+        "around chunk multiples, workers 1 and 4.",
+        "FITS: slices asked of the column object (not astropy's mmap); Parquet: unit of request is the row group.",
+        "vlib/sources.py",
     ),
 }
 
@@ -160,6 +228,10 @@ def main():
         engines=[
             dict(name="vlib", path="vlib/core.py", serves_properties=ALL,
                  kind_free_text="case runner: sharded execution, verdicts, known-finding classifier, evidence/replay writer"),
+            dict(name="fakepool", path="engines/fakepool.py", serves_properties=["C05"],
+                 kind_free_text="in-process double of multiprocessing.Pool yielding imap_unordered results in a chosen permutation"),
+            dict(name="sources", path="vlib/sources.py", serves_properties=["C02", "C18", "C09"],
+                 kind_free_text="input file writers (FITS/HDF5/Parquet) and recording proxies for reader handles"),
             dict(name="procwatch", path="engines/procwatch.py", serves_properties=["C09", "C08"],
                  kind_free_text="forked workload runner with /proc-based quiescence (hang) detection and process-group kill"),
             dict(name="contracts", path="engines/contracts.py", serves_properties=["C17", "C03", "C04", "C11", "C12"],
